@@ -200,7 +200,7 @@ def _total(path):
         if tags:
             leaf = _loop_ratio_leaf(c, tags)
             if leaf is None:
-                return None, 'loop component without a single ratio leaf: %s' % c.key()[:80]
+                return None, 'multiplet component radiance is not proportional to the ratio row of its table: %s' % c.key()[:80]
             # wavelength must come from row 0 of the same table at the same index
             w = args[1].key()
             if leaf.replace('[1,', '[0,') not in w:
@@ -225,7 +225,11 @@ def _r3(run, results, classes):
                 tot, notes = _total(path)
                 tag = '%s %s B%s' % (cname, POLNAME[p], '=0' if b == 0 else '!=0')
                 if tot is None:
-                    run.undecided('C02-R3', tag, notes)
+                    if 'ratio' in notes:
+                        run.subject('C02-R3')
+                        run.fail('C02-R3', K + 'multiplet-ratio|%s' % POLNAME[p], ci.mod.relpath, fn.lineno, '%s: %s' % (tag, notes))
+                    else:
+                        run.undecided('C02-R3', tag, notes)
                     continue
                 # cos^2 leaf of this path (if any)
                 cosl = [l for l in tot.leaves() if '.dot(' in l]
